@@ -172,7 +172,9 @@ def perturb(v, nested=True):
         out += [v + b"z"] + ([v[1:]] if v else [])
     elif isinstance(v, uuid.UUID):
         out += [M.FIX_UUID2 if v != M.FIX_UUID2 else M.FIX_UUID,
-                uuid.UUID("51c2f442-bf61-11f1-b9da-02fc00000001")]
+                uuid.UUID("51c2f442-bf61-11f1-b9da-02fc00000001"),
+                # no version at all (nil), and version nibble 4 under a non-RFC variant
+                uuid.UUID(int=0), uuid.UUID("7e1c1b6e-2c2f-4c8b-1b8e-1d2a3b4c5d6e")]
     elif isinstance(v, _dt.datetime):
         out += [v + _dt.timedelta(seconds=1), v.date()]
     elif isinstance(v, _dt.date):
